@@ -106,4 +106,33 @@ PROPS = {
                          '_get_child_feedback of a parent group and report hooks do not raise',
                          'Feedback.__init__, wrap_fields/FeedbackFieldWrapper.__format__, override/_restore_overrides: bounded only'],
     },
+    'C05': {
+        'sidecars': ['contracts/c05_patches.py'],
+        'native': 'c05', 'native_arg': {'prop': 'C05'}, 'ground': False,
+        'level': 'proof',
+        'explanation': '_execute verified from the real source with compile/exec as abstract callees raising ANY exception '
+                       'class (symbolic class over the BaseException lattice): on every exit - normal, Exception, SystemExit, '
+                       'any other BaseException, a failure inside _capture_exception - both stacks have their entry length, '
+                       'every started patch was stopped (ghost counter) and the tracer context manager was exited; '
+                       '_start_patches/_stop_patches/_stop_mocking with loop invariants. _start_mocking and what the '
+                       'unittest.mock patches restore are observed by the exhaustive bounded product B-sandbox. The timeout '
+                       'path is C14.',
+        'trusted_base': ['unittest.mock patch.start/stop are inverse (ghost counter live_patches)',
+                         '_start_mocking pushes one stdout buffer and one group of three started patches (assumed; B-sandbox)',
+                         'tracer __enter__/__exit__ install and remove the trace function and do not suppress exceptions',
+                         '_capture_exception never touches the patch/stdout stacks'],
+    },
+    'C04': {
+        'sidecars': ['contracts/c04_contain.py'],
+        'targets': ['pedal.sandbox.sandbox:Sandbox._execute'],
+        'native': 'c05', 'native_arg': {'prop': 'C04'}, 'ground': False,
+        'level': 'other',
+        'explanation': '_execute verified with compile/exec abstract: no Exception or SystemExit raised by student code leaves '
+                       '_execute, at most one runtime feedback is attached per execution and the sandbox exception is set '
+                       'exactly when one was attached. That _capture_exception / runtime_error.__init__ themselves never '
+                       'raise (broken __str__/__repr__, blocked builtins, recursion) and name the right class and student '
+                       'line is only the exhaustive bounded product B-sandbox (21 termination modes x 3 entry points).',
+        'trusted_base': ['_capture_exception / runtime_error.__init__ / ExpandedTraceback: assumed total (bounded only)',
+                         'run/call/evaluate bodies around _execute: bounded only'],
+    },
 }
